@@ -236,6 +236,18 @@ def check(rep: Report, ctx: Ctx) -> None:
         rep.ob("R11.8", f"{prop_name} returns {fld} once data was seen", ok,
                fi=g, node=last if last is not None else g.node,
                detail=f"return {unparse(last.value) if last else '?'}")
+        # the "nothing ingested" fallback (unbounded window) is returned only
+        # in the initial state, i.e. when max < min
+        early = [r for r in rets if r is not last]
+        for r in early:
+            gs = cguards(ctx, g, r)
+            ok2 = gs in ([("cmp", "self._max_timestamp", "Lt",
+                           "self._min_timestamp")],)
+            rep.ob("R11.8", f"{prop_name}: the unbounded fallback only when "
+                   "nothing was ingested", ok2, fi=g, node=r,
+                   detail=f"'{unparse(r)}' under "
+                          f"{[' '.join(x) for x in gs]} (initial state: "
+                          "max = 0 < min = MAXINT)")
     # who may write the tracked bounds: they describe the spans handed to
     # save_data in this process (or stay at the "unbounded" initial values
     # when nothing was ingested) -- nothing else may move them, in particular
